@@ -21,8 +21,8 @@ extern "C" {
 
 const char *verif_property = "C12";
 const char *verif_class_names[] = { "site_first_seen_between_filter_and_enable", "remove_with_overlap_then_log", "regex_filter", "comma_list", "priority_window",
-	"tag_filter", "target_closed_and_slot_reused", "clear_all", "delivered", "suppressed", "invalid_regex", "explicit_tag", "three_targets", NULL };
-enum { K_LATE, K_OVERLAP, K_REGEX, K_COMMA, K_WINDOW, K_TAG, K_REUSE, K_CLEAR, K_DELIV, K_SUPP, K_BADRE, K_EXPL, K_THREE };
+	"tag_filter", "target_closed_and_slot_reused", "clear_all", "delivered", "suppressed", "invalid_regex", "explicit_tag", "three_targets", "clear_all_with_narrower_arguments", NULL };
+enum { K_LATE, K_OVERLAP, K_REGEX, K_COMMA, K_WINDOW, K_TAG, K_REUSE, K_CLEAR, K_DELIV, K_SUPP, K_BADRE, K_EXPL, K_THREE, K_CLEARNARROW };
 const char *verif_rule =
 	"case = history over up to 3 custom targets: open/close, enable/disable, filter ADD/REMOVE/CLEAR_ALL with (6 filter kinds, texts from pools of exact names, comma lists, '*', substrings, "
 	"basic regexes incl. invalid ones, priority windows), TAG_SET/TAG_CLEAR/TAG_CLEAR_ALL, and log calls from a pool of 36 call sites with overlapping names; every history runs twice "
@@ -171,8 +171,10 @@ static void run_history(const std::vector<hop> &H, bool pretouch, std::vector<de
 			break; }
 		case 6:	/* clear all */
 			if (!t.open) break;
-			rc = qb_log_filter_ctl(t.id, QB_LOG_FILTER_CLEAR_ALL, QB_LOG_FILTER_FILE, "*", LOG_TRACE);
-			if (check_model) VLOG(R, "#%zu slot %d CLEAR_ALL -> %d\n", i, h.slot, rc);
+			/* whatever type, text and priority accompany it, clear-all drops every filter of the target */
+			if ((h.arg & 1) && h.type < QB_LOG_FILTER_FILE_REGEX && !h.text.empty()) rc = qb_log_filter_ctl(t.id, QB_LOG_FILTER_CLEAR_ALL, (enum qb_log_filter_type)h.type, h.text.c_str(), h.lo), VCLASS(R, K_CLEARNARROW);
+			else rc = qb_log_filter_ctl(t.id, QB_LOG_FILTER_CLEAR_ALL, QB_LOG_FILTER_FILE, "*", LOG_TRACE);
+			if (check_model) VLOG(R, "#%zu slot %d CLEAR_ALL%s -> %d\n", i, h.slot, (h.arg & 1) ? " (with narrower arguments)" : "", rc);
 			if (rc != 0) { VFAIL(R, "filter-clear-rc", "CLEAR_ALL returned %d", rc); break; }
 			if (t.flt.size() >= 2) *nt |= true;
 			t.flt.clear(); VCLASS(R, K_CLEAR);
@@ -199,8 +201,9 @@ static void run_history(const std::vector<hop> &H, bool pretouch, std::vector<de
 			if (rc == 0) for (size_t q = 0; q < tagf.size(); q++) { mfilter &o = tagf[q]; if (o.type == h.type && o.lo <= h.lo && o.hi >= h.hi && (o.text == h.text || h.text == "*")) { tagf.erase(tagf.begin() + q); break; } }
 			break; }
 		case 9:	/* tag clear all */
-			rc = qb_log_filter_ctl(0, QB_LOG_TAG_CLEAR_ALL, QB_LOG_FILTER_FILE, "*", LOG_TRACE);
-			if (check_model) VLOG(R, "#%zu TAG_CLEAR_ALL -> %d\n", i, rc);
+			if ((h.arg & 1) && h.type < QB_LOG_FILTER_FILE_REGEX && !h.text.empty()) rc = qb_log_filter_ctl(0, QB_LOG_TAG_CLEAR_ALL, (enum qb_log_filter_type)h.type, h.text.c_str(), h.lo), VCLASS(R, K_CLEARNARROW);
+			else rc = qb_log_filter_ctl(0, QB_LOG_TAG_CLEAR_ALL, QB_LOG_FILTER_FILE, "*", LOG_TRACE);
+			if (check_model) VLOG(R, "#%zu TAG_CLEAR_ALL%s -> %d\n", i, (h.arg & 1) ? " (with narrower arguments)" : "", rc);
 			tagf.clear();
 			break;
 		default: {	/* log from a site */
@@ -274,7 +277,7 @@ extern "C" int verif_case(const uint8_t *data, size_t size, struct verif_report 
 		h.slot = vr_u8(&v) % 3;
 		h.kind = k <= 2 ? 0 : k == 3 ? 1 : k <= 6 ? 2 : k == 7 ? 3 : k <= 13 ? 4 : k <= 16 ? 5 : k == 17 ? 6 : k <= 19 ? 7 : k == 20 ? 8 : k == 21 ? 9 : 10;
 		if (h.kind == 0) ntargets++;
-		if (h.kind >= 4 && h.kind <= 8) {
+		if (h.kind >= 4 && h.kind <= 9) {
 			h.type = vr_u8(&v) % 6;
 			unsigned ti = vr_u8(&v);
 			switch (h.type) {
@@ -294,6 +297,7 @@ extern "C" int verif_case(const uint8_t *data, size_t size, struct verif_report 
 			if (!cand.empty()) { const hop &o = H[cand[vr_u8(&v) % cand.size()]]; h.type = o.type; h.text = o.text; h.hi = o.hi; h.lo = o.lo; }
 		}
 		if (h.kind == 10) { h.site = vr_u8(&v) % SITES.size(); h.arg = vr_u8(&v); }
+		if (h.kind == 6 || h.kind == 9) h.arg = vr_u8(&v);
 		H.push_back(h);
 		vop(r, h.kind * 256 + h.slot * 64 + h.type, vhash_bytes(h.text.data(), h.text.size()), (h.hi << 24) | (h.lo << 16) | (h.site << 8) | h.arg);
 	}
